@@ -11,7 +11,7 @@ var rawServerDeviations = []string{
 	"headers_twice", "close_twice", "data_after_close", "no_headers", "more_to_msg", "msg_to_more",
 	"size_too_small", "size_too_big", "size_huge", "nil_frame", "oversize_chunk", "window_overrun",
 	"unary_two_responses", "unary_many_responses", "unary_no_response", "window_update_huge", "window_update_zero",
-	"dup_frame", "drop_frame", "swap_frames", "no_close",
+	"dup_frame", "drop_frame", "swap_frames", "no_close", "unary_junk_then_silence", "unary_junk_then_silence",
 }
 
 func conformingReply(tag int, r *RPC) []RawFrame {
@@ -188,6 +188,16 @@ func applyServerDeviation(t *rapid.T, label, kind string, reps []*replyState, c 
 				r.Via = "stream" // Recv is the application's to call
 			}
 			mark(-1)
+		}
+	case "unary_junk_then_silence":
+		// a complete single response, then something that is not a message, then nothing more - the server never closes
+		if !respStreams(r.Shape) && r.Code == 0 && len(r.Resp) == 1 {
+			junk := RawFrame{Kind: rapid.SampledFrom([]string{"more", "more", "nil", "headers"}).Draw(t, label+".junk"), Tag: rs.tag, Size: 3, DataLen: 3, Zeros: true}
+			if junk.Kind == "headers" {
+				junk = RawFrame{Kind: "headers", Tag: rs.tag, MD: map[string][]string{"late": {"1"}}}
+			}
+			rs.fs = append(rs.fs[:closeIdx()], junk)
+			mark(0)
 		}
 	case "unary_no_response":
 		if !respStreams(r.Shape) && r.Code == 0 {
